@@ -1,6 +1,7 @@
 import Orx.Fair
 import Orx.IW.Progress
-/-! # Termination of the ticket protocol under weak fairness (C09), for programs without looping requests
+import Orx.IW.NoLoss
+/-! # Termination of the ticket protocol under weak fairness (C09)
 
 A potential `mu` (remaining own steps of every thread; a waiting thread weighs the same at both loads of its
 spin loop) strictly decreases with every step of a thread that is not spinning, and is unchanged by spin
@@ -9,6 +10,10 @@ iterations. Together with deadlock freedom (`Progress.deadlock_free`) and the ge
 namespace Orx.IW
 
 def reqCost (r : Req) : Nat := 2 * r.len + 20
+
+/-- a looping request (`for_each`, `fold`, `values`) that has obtained at least one element goes again: the weight of
+the next round is charged as soon as the element is there -/
+def reissue (r : Req) (acc : List Nat) : Nat := if r.isLoop = true ∧ acc ≠ [] then 2 * r.len + 18 else 0
 
 def pcCost (c : Cfg) : Pc → Nat
   | .idle => 0
@@ -20,8 +25,8 @@ def pcCost (c : Cfg) : Pc → Nat
   | .ent r _ => if c.C then 1 else 2 * r.len + 14
   | .cs r _ acc => 2 * (r.len - acc.length) + 10
   | .ins r _ acc => 2 * (r.len - acc.length) + 9
-  | .setC .. => 2
-  | .pub .. => 1
+  | .setC r _ acc => 2 + reissue r acc
+  | .pub r _ acc => 1 + reissue r acc
   | .unw .. => 1
   | .dead .. => 0
 
@@ -29,7 +34,9 @@ def todoCost (l : List Req) : Nat := (l.map reqCost).sum
 
 def thCost (c : Cfg) (t : Nat) : Nat := pcCost c (c.th t).pc + todoCost (c.th t).todo
 
-def mu (T : Nat) (c : Cfg) : Nat := ((List.range T).map (thCost c)).sum
+/-- the potential: the threads' weights plus `K` for every call of the wrapped iterator that can still succeed
+(`L` is the index of the call that returns the first `None`) -/
+def mu (T K L : Nat) (c : Cfg) : Nat := ((List.range T).map (thCost c)).sum + K * (L + 1 - c.P)
 
 theorem sum_le_of_pointwise (T : Nat) (f g : Nat → Nat) (h : ∀ u, u < T → f u ≤ g u) :
     ((List.range T).map f).sum ≤ ((List.range T).map g).sum := by
@@ -78,17 +85,26 @@ def Pc.req : Pc → Option Req
   | .resv r | .pre r _ | .wait r _ | .chk r _ | .ent r _ | .cs r _ _ | .ins r _ _ | .setC r _ _ | .pub r _ _ => some r
   | _ => none
 
-/-- no looping requests (`for_each`, `fold`, `values` are excluded from the termination theorem) -/
-def NL (c : Cfg) : Prop :=
-  ∀ t, (∀ r ∈ (c.th t).todo, r.isLoop = false) ∧ (∀ r, (c.th t).pc.req = some r → r.isLoop = false)
-
-theorem ret_nl (x : Thread) (r : Req) (o : POut) (h : r.isLoop = false) :
-    ret x r o = { x with pc := .idle, outs := x.outs ++ [o] } := by
-  unfold ret; simp [h]
+/-- all chunk sizes are at most `M` -/
+def ML (M : Nat) (c : Cfg) : Prop :=
+  ∀ t, (∀ r ∈ (c.th t).todo, r.len ≤ M) ∧ (∀ r, (c.th t).pc.req = some r → r.len ≤ M)
 
 theorem step_Y_mono (s : Script) (t : Nat) (c : Cfg) : c.Y ≤ (step s t c).Y := by
   unfold step
   repeat' (first | split | simp [setTh])
+
+theorem step_P_mono (s : Script) (t : Nat) (c : Cfg) : c.P ≤ (step s t c).P := by
+  unfold step
+  repeat' (first | split | simp [setTh])
+
+/-- only the exit of the wrapped `next()` advances the call counter -/
+theorem step_P_same (s : Script) (t : Nat) (c : Cfg) (h : ∀ r b acc, (c.th t).pc ≠ .ins r b acc) : (step s t c).P = c.P := by
+  unfold step
+  generalize hx : c.th t = x at h
+  obtain ⟨pc, todo, outs⟩ := x
+  cases pc with
+  | ins r b acc => exact absurd rfl (h r b acc)
+  | _ => simp only <;> (try (repeat' (first | split | simp [setTh])))
 
 /-- other threads never get heavier -/
 theorem other_cost_le (s : Script) (t u : Nat) (c : Cfg) (hu : u ≠ t) : thCost (step s t c) u ≤ thCost c u := by
@@ -104,32 +120,37 @@ theorem spin_cost_eq (s : Script) (t : Nat) (c : Cfg) (h : Spinning c t) : thCos
   have h2 : ¬ b < c.Y := by omega
   rcases hpc with hpc | hpc <;> unfold thCost step <;> simp [hpc, h1, h2, hC, setTh, pcCost, hlt]
 
-/-- … and a step of a thread that is busy and not spinning makes it strictly lighter. -/
-theorem prog_cost_lt {s : Script} {c : Cfg} (hi : Inv s c) (hnl : NL c) (t : Nat) (hb : Busy c t) (hs : ¬ Spinning c t) :
+/-- weight of a thread that returns from a request -/
+theorem ret_cost (c : Cfg) (x : Thread) (r : Req) (o : POut) :
+    pcCost c (ret x r o).pc + todoCost (ret x r o).todo =
+      (if r.isLoop = true ∧ o ≠ .fin then 2 * r.len + 18 else 0) + todoCost x.todo := by
+  unfold ret; split <;> simp [pcCost]
+
+/-- … a step that is not the exit of `next()` makes a busy, non-spinning thread strictly lighter … -/
+theorem prog_cost_lt {s : Script} {c : Cfg} (hi : Inv s c) (t : Nat) (hb : Busy c t) (hs : ¬ Spinning c t)
+    (hni : ∀ r b acc, (c.th t).pc ≠ .ins r b acc) :
     thCost (step s t c) t < thCost c t := by
   obtain ⟨hbusy, hnd⟩ := hb
-  have hnlt := hnl t
   unfold thCost step
-  generalize hx : c.th t = x at hbusy hnd hnlt hs
+  generalize hx : c.th t = x at hbusy hnd hs hni
   obtain ⟨pc, todo, outs⟩ := x
-  have hr : ∀ r, pc.req = some r → r.isLoop = false := fun r h => hnlt.2 r (by simpa using h)
+  have hretfin : ∀ (c' : Cfg) (x : Thread) r, pcCost c' (ret x r .fin).pc + todoCost (ret x r .fin).todo = todoCost x.todo := by
+    intro c' x r; rw [ret_cost]; simp
   cases pc with
   | idle =>
     cases todo with
     | nil => simp at hbusy
     | cons r rest =>
       cases r <;> simp [setTh, pcCost, todoCost, reqCost, Req.len] <;> omega
-  | skp => simp [setTh, ret_nl _ _ _ (show Req.skip.isLoop = false from rfl), pcCost]
+  | skp => simp only [setTh_th_same]; rw [ret_cost]; simp [pcCost, Req.isLoop]
   | resv r => simp [setTh, pcCost]
   | pre r b =>
-    have hl := hr r rfl
     simp only
     split
-    · simp [setTh, ret_nl _ _ _ hl, pcCost]
+    · simp only [setTh_th_same]; rw [hretfin]; simp [pcCost]
     · rename_i hC
       simp [setTh, pcCost, hC]; split <;> omega
   | wait r b =>
-    have hl := hr r rfl
     have hme : (c.th t).pc.ticket = some (b, r.len) := by simp [hx, Pc.ticket]
     have htk := hi.tk t b r.len hme
     have hns : c.C = true ∨ ¬ c.Y < b := by
@@ -140,53 +161,54 @@ theorem prog_cost_lt {s : Script} {c : Cfg} (hi : Inv s c) (hnl : NL c) (t : Nat
     split
     · rename_i hbY; simp [setTh, pcCost, hbY]; split <;> omega
     · split
-      · simp [setTh, ret_nl _ _ _ hl, pcCost]; split <;> (try split) <;> omega
+      · simp only [setTh_th_same]; rw [hretfin]; simp [pcCost]; split <;> (try split) <;> omega
       · rename_i h1 h2
         rcases hns with hC | hY
         · simp [setTh, pcCost, hC]
         · omega
   | chk r b =>
-    have hl := hr r rfl
-    have hme : (c.th t).pc.ticket = some (b, r.len) := by simp [hx, Pc.ticket]
-    have htk := hi.tk t b r.len hme
     simp only
     split
-    · rename_i hC; simp [setTh, ret_nl _ _ _ hl, pcCost, hC]
+    · rename_i hC; simp only [setTh_th_same]; rw [hretfin]; simp [pcCost, hC]
     · rename_i hC
       have hY : ¬ c.Y < b := by
         intro hlt; exact hs ⟨by simpa using hC, r, b, Or.inr (by simp [hx]), hlt⟩
       simp [setTh, pcCost, hC, hY]
   | ent r b =>
-    have hl := hr r rfl
     simp only
     split
-    · rename_i hC; simp [setTh, ret_nl _ _ _ hl, pcCost, hC]
+    · rename_i hC; simp only [setTh_th_same]; rw [hretfin]; simp [pcCost, hC]
     · rename_i hC
-      split <;> simp [setTh, pcCost, hC] <;> omega
+      split <;> simp [setTh, pcCost, hC, reissue] <;> omega
   | cs r b acc => simp [setTh, pcCost]
-  | ins r b acc =>
-    simp only
-    cases s c.P with
-    | some v =>
-      simp only
-      split
-      · split <;> simp [setTh, pcCost] <;> omega
-      · rename_i hne
-        have hlt := hi.csLt t r b acc (by simp [hx])
-        simp [setTh, pcCost]; omega
-    | none => simp [setTh, pcCost]
-    | panic => simp [setTh, pcCost]
+  | ins r b acc => exact absurd rfl (hni r b acc)
   | setC r b acc =>
-    have hl := hr r rfl
-    simp only; split <;> simp [setTh, ret_nl _ _ _ hl, pcCost]
+    simp only; split
+    · simp only [setTh_th_same]; rw [hretfin]; simp [pcCost]; omega
+    · simp [setTh, pcCost]
   | pub r b acc =>
-    have hl := hr r rfl
     simp only
     cases acc with
-    | nil => simp [setTh, ret_nl _ _ _ hl, pcCost]
-    | cons v rest => simp only; split <;> simp [setTh, ret_nl _ _ _ hl, pcCost]
+    | nil => simp only [setTh_th_same]; rw [hretfin]; simp [pcCost]; omega
+    | cons v rest =>
+      simp only; split <;> (simp only [setTh_th_same]; rw [ret_cost]; simp [pcCost, reissue])
   | unw b n => simp [setTh, pcCost]
   | dead b n => exact absurd rfl (hnd b n)
+
+/-- … and the exit of `next()` makes it heavier by at most `2 * len + 11` (the next round of a looping request). -/
+theorem ins_cost_le {s : Script} {c : Cfg} (hi : Inv s c) (t : Nat) (r : Req) (b : Nat) (acc : List Nat)
+    (hpc : (c.th t).pc = .ins r b acc) : thCost (step s t c) t ≤ thCost c t + 2 * r.len + 11 := by
+  have hlt := hi.csLt t r b acc (Or.inr (Or.inl hpc))
+  unfold thCost step
+  simp only [hpc]
+  cases s c.P with
+  | some v =>
+    simp only
+    split
+    · split <;> simp [setTh, pcCost, reissue] <;> (try split) <;> omega
+    · simp [setTh, pcCost]; omega
+  | none => simp [setTh, pcCost, reissue]; split <;> omega
+  | panic => simp [setTh, pcCost]; omega
 
 end Orx.IW
 
@@ -194,22 +216,31 @@ namespace Orx.IW
 
 def lenSum (l : List Req) : Nat := (l.map Req.len).sum
 
-/-- positions a thread will still reserve -/
+/-- positions a thread will still reserve for sure: its pending requests, the request it is about to reserve, and the
+next round of a looping request that has already obtained an element -/
 def pend (x : Thread) : Nat :=
-  lenSum x.todo + (match x.pc with | .resv r => r.len | _ => 0)
+  lenSum x.todo + (match x.pc with
+    | .resv r => r.len
+    | .cs r _ acc | .ins r _ acc | .setC r _ acc | .pub r _ acc => if r.isLoop = true ∧ acc ≠ [] then r.len else 0
+    | _ => 0)
 
 def pending (T : Nat) (c : Cfg) : Nat := ((List.range T).map fun t => pend (c.th t)).sum
 
-/-- everything the termination argument carries along -/
-structure TInv (s : Script) (T B : Nat) (c : Cfg) : Prop where
+/-- everything the termination argument carries along; `L` is the index of the call that returns the first `None`,
+`M` bounds the chunk sizes, `B < 2^64` bounds all reservations -/
+structure TInv (s : Script) (T M L B : Nat) (c : Cfg) : Prop where
   inv : Inv s c
   cover : Cover c
   deadC : DeadC c
-  nl : NL c
+  ml : ML M c
   out : ∀ t, T ≤ t → (c.th t).pc = .idle ∧ (c.th t).todo = []
-  budget : c.R + pending T c ≤ B
+  pbound : c.P ≤ L + 1
+  budget : c.R + pending T c + M * (L + 1 - c.P) ≤ B
 
-theorem step_nl (s : Script) {c : Cfg} (h : NL c) (t : Nat) : NL (step s t c) := by
+theorem ret_req (x : Thread) (r : Req) (o : POut) : (ret x r o).pc.req = none ∨ (ret x r o).pc.req = some r := by
+  rcases ret_pc x r o with h | h <;> simp [h, Pc.req]
+
+theorem step_ml (s : Script) (M : Nat) {c : Cfg} (h : ML M c) (t : Nat) : ML M (step s t c) := by
   intro u
   by_cases hu : u = t
   · subst hu
@@ -217,92 +248,101 @@ theorem step_nl (s : Script) {c : Cfg} (h : NL c) (t : Nat) : NL (step s t c) :=
     unfold step
     generalize hx : c.th u = x at h0
     obtain ⟨pc, todo, outs⟩ := x
-    have hr : ∀ r, pc.req = some r → r.isLoop = false := fun r hh => h0.2 r (by simpa using hh)
-    have htd : ∀ r ∈ todo, r.isLoop = false := by simpa using h0.1
-    have hret : ∀ (x : Thread) r o, x.todo = todo → r.isLoop = false →
-        (∀ r' ∈ (ret x r o).todo, r'.isLoop = false) ∧ (∀ r', (ret x r o).pc.req = some r' → r'.isLoop = false) := by
-      intro x r o h1 h2; rw [ret_nl x r o h2]; simp [h1, Pc.req]; exact htd
+    have hr : ∀ r, pc.req = some r → r.len ≤ M := fun r hh => h0.2 r (by simpa using hh)
+    have htd : ∀ r ∈ todo, r.len ≤ M := by simpa using h0.1
+    have hret : ∀ (x : Thread) r o, x.todo = todo → r.len ≤ M →
+        (∀ r' ∈ (ret x r o).todo, r'.len ≤ M) ∧ (∀ r', (ret x r o).pc.req = some r' → r'.len ≤ M) := by
+      intro x r o h1 h2
+      refine ⟨by simpa [ret_todo, h1] using htd, ?_⟩
+      intro r' hr'
+      rcases ret_req x r o with h3 | h3 <;> rw [h3] at hr' <;> simp at hr'
+      subst hr'; exact h2
+    have keep : ∀ pc' : Pc, (∀ r', pc'.req = some r' → r'.len ≤ M) →
+        (∀ r ∈ (⟨pc', todo, outs⟩ : Thread).todo, r.len ≤ M) ∧ (∀ r, (⟨pc', todo, outs⟩ : Thread).pc.req = some r → r.len ≤ M) :=
+      fun pc' h1 => ⟨htd, h1⟩
     cases pc with
     | idle =>
       cases todo with
       | nil => simpa [hx] using h0
       | cons r rest =>
-        have h1 : r.isLoop = false := htd r (by simp)
-        have h2 : ∀ r' ∈ rest, r'.isLoop = false := fun r' hr' => htd r' (by simp [hr'])
+        have h1 : r.len ≤ M := htd r (by simp)
+        have h2 : ∀ r' ∈ rest, r'.len ≤ M := fun r' hr' => htd r' (by simp [hr'])
         cases r <;> simp [setTh, Pc.req] <;> first | exact h2 | exact ⟨h2, h1⟩ | exact ⟨h2, by simpa using h1⟩
-    | skp => simp only [setTh_th_same]; exact hret _ _ _ rfl rfl
-    | resv r => simp [setTh, Pc.req]; exact ⟨htd, hr r rfl⟩
+    | skp => simp only [setTh_th_same]; exact hret _ _ _ rfl (by simp [Req.len])
+    | resv r => simp only [setTh_th_same]; exact keep _ (by intro r' h'; simp [Pc.req] at h'; subst h'; exact hr r rfl)
     | pre r b =>
       simp only; split
       · simp only [setTh_th_same]; exact hret _ _ _ rfl (hr r rfl)
-      · simp [setTh, Pc.req]; exact ⟨htd, hr r rfl⟩
+      · simp only [setTh_th_same]; exact keep _ (by intro r' h'; simp [Pc.req] at h'; subst h'; exact hr r rfl)
     | wait r b =>
       simp only; split
-      · simp [setTh, Pc.req]; exact ⟨htd, hr r rfl⟩
+      · simp only [setTh_th_same]; exact keep _ (by intro r' h'; simp [Pc.req] at h'; subst h'; exact hr r rfl)
       · split
         · simp only [setTh_th_same]; exact hret _ _ _ rfl (hr r rfl)
-        · simp [setTh, Pc.req]; exact ⟨htd, hr r rfl⟩
+        · simp only [setTh_th_same]; exact keep _ (by intro r' h'; simp [Pc.req] at h'; subst h'; exact hr r rfl)
     | chk r b =>
       simp only; split
       · simp only [setTh_th_same]; exact hret _ _ _ rfl (hr r rfl)
-      · simp [setTh, Pc.req]; exact ⟨htd, hr r rfl⟩
+      · simp only [setTh_th_same]; exact keep _ (by intro r' h'; simp [Pc.req] at h'; subst h'; exact hr r rfl)
     | ent r b =>
       simp only; split
       · simp only [setTh_th_same]; exact hret _ _ _ rfl (hr r rfl)
-      · split <;> (simp [setTh, Pc.req]; exact ⟨htd, hr r rfl⟩)
-    | cs r b acc => simp [setTh, Pc.req]; exact ⟨htd, hr r rfl⟩
+      · split <;> (simp only [setTh_th_same]; exact keep _ (by intro r' h'; simp [Pc.req] at h'; subst h'; exact hr r rfl))
+    | cs r b acc => simp only [setTh_th_same]; exact keep _ (by intro r' h'; simp [Pc.req] at h'; subst h'; exact hr r rfl)
     | ins r b acc =>
       simp only
       cases s c.P with
       | some v => simp only; split
-                  · split <;> (simp [setTh, Pc.req]; exact ⟨htd, hr r rfl⟩)
-                  · simp [setTh, Pc.req]; exact ⟨htd, hr r rfl⟩
-      | none => simp [setTh, Pc.req]; exact ⟨htd, hr r rfl⟩
-      | panic => simp [setTh, Pc.req]; exact htd
+                  · split <;> (simp only [setTh_th_same]; exact keep _ (by intro r' h'; simp [Pc.req] at h'; subst h'; exact hr r rfl))
+                  · simp only [setTh_th_same]; exact keep _ (by intro r' h'; simp [Pc.req] at h'; subst h'; exact hr r rfl)
+      | none => simp only [setTh_th_same]; exact keep _ (by intro r' h'; simp [Pc.req] at h'; subst h'; exact hr r rfl)
+      | panic => simp only [setTh_th_same]; exact keep _ (by intro r' h'; simp [Pc.req] at h')
     | setC r b acc =>
       simp only; split
       · simp only [setTh_th_same]; exact hret _ _ _ rfl (hr r rfl)
-      · simp [setTh, Pc.req]; exact ⟨htd, hr r rfl⟩
+      · simp only [setTh_th_same]; exact keep _ (by intro r' h'; simp [Pc.req] at h'; subst h'; exact hr r rfl)
     | pub r b acc =>
       simp only
       cases acc with
       | nil => simp only [setTh_th_same]; exact hret _ _ _ rfl (hr r rfl)
       | cons v rest => simp only; split <;> (simp only [setTh_th_same]; exact hret _ _ _ rfl (hr r rfl))
-    | unw b n => simp [setTh, Pc.req]; exact htd
+    | unw b n => simp only [setTh_th_same]; exact keep _ (by intro r' h'; simp [Pc.req] at h')
     | dead b n => simpa [hx] using h0
   · rw [step_th_other s t u c hu]; exact h u
 
-/-- the reservation budget: what is reserved plus what will still be reserved never grows -/
-theorem step_pend (s : Script) {c : Cfg} (h : NL c) (t : Nat) :
-    (step s t c).R + pend ((step s t c).th t) ≤ c.R + pend (c.th t) := by
-  have h0 := h t
+theorem ret_pend (x : Thread) (r : Req) (o : POut) :
+    pend (ret x r o) = lenSum x.todo + (if r.isLoop = true ∧ o ≠ .fin then r.len else 0) := by
+  unfold ret; split <;> simp [pend]
+
+/-- own reservation budget of the moving thread: what is reserved plus what it will still reserve grows by at most
+its chunk size, and only at the exit of `next()` -/
+theorem step_pend (s : Script) {c : Cfg} (t : Nat) :
+    (step s t c).R + pend ((step s t c).th t) ≤ c.R + pend (c.th t) +
+      (match (c.th t).pc with | .ins r _ _ => r.len | _ => 0) := by
   unfold step
-  generalize hx : c.th t = x at h0
+  generalize hx : c.th t = x
   obtain ⟨pc, todo, outs⟩ := x
-  have hr : ∀ r, pc.req = some r → r.isLoop = false := fun r hh => h0.2 r (by simpa using hh)
-  have hretp : ∀ (x : Thread) r o, r.isLoop = false → pend (ret x r o) = lenSum x.todo := by
-    intro x r o h2; rw [ret_nl x r o h2]; simp [pend]
   cases pc with
   | idle =>
     cases todo with
     | nil => simp [hx]
     | cons r rest => cases r <;> simp [setTh, pend, lenSum, Req.len] <;> omega
-  | skp => simp [setTh, ret_nl _ _ _ (show Req.skip.isLoop = false from rfl), pend]
+  | skp => simp only [setTh_th_same]; rw [ret_pend]; simp [pend, Req.isLoop]
   | resv r => simp [setTh, pend]; omega
-  | pre r b => simp only; split <;> simp [setTh, ret_nl _ _ _ (hr r rfl), pend]
-  | wait r b => simp only; split <;> (try split) <;> simp [setTh, ret_nl _ _ _ (hr r rfl), pend]
-  | chk r b => simp only; split <;> simp [setTh, ret_nl _ _ _ (hr r rfl), pend]
-  | ent r b => simp only; split <;> (try split) <;> simp [setTh, ret_nl _ _ _ (hr r rfl), pend]
+  | pre r b => simp only; split <;> (simp only [setTh_th_same]; (try rw [ret_pend]); simp [setTh, pend])
+  | wait r b => simp only; split <;> (try split) <;> (simp only [setTh_th_same]; (try rw [ret_pend]); simp [setTh, pend])
+  | chk r b => simp only; split <;> (simp only [setTh_th_same]; (try rw [ret_pend]); simp [setTh, pend])
+  | ent r b => simp only; split <;> (try split) <;> (simp only [setTh_th_same]; (try rw [ret_pend]); simp [setTh, pend])
   | cs r b acc => simp [setTh, pend]
   | ins r b acc =>
     simp only
-    cases s c.P <;> simp only <;> (repeat' (first | split | simp [setTh, pend]))
-  | setC r b acc => simp only; split <;> simp [setTh, ret_nl _ _ _ (hr r rfl), pend]
+    cases s c.P <;> simp only <;> (repeat' (first | split | simp [setTh, pend])) <;> (try omega)
+  | setC r b acc => simp only; split <;> (simp only [setTh_th_same]; (try rw [ret_pend]); simp [setTh, pend])
   | pub r b acc =>
     simp only
     cases acc with
-    | nil => simp [setTh, ret_nl _ _ _ (hr r rfl), pend]
-    | cons v rest => simp only; split <;> simp [setTh, ret_nl _ _ _ (hr r rfl), pend]
+    | nil => simp only [setTh_th_same]; rw [ret_pend]; simp [pend]
+    | cons v rest => simp only; split <;> (simp only [setTh_th_same]; rw [ret_pend]; simp [pend])
   | unw b n => simp [setTh, pend]
   | dead b n => simp [hx]
 
@@ -323,7 +363,22 @@ end Orx.IW
 
 namespace Orx.IW
 
-theorem busy_lt {s : Script} {T B : Nat} {c : Cfg} (h : TInv s T B c) (t : Nat) (hb : Busy c t) : t < T := by
+theorem sum_le_add_one (T : Nat) (f g : Nat → Nat) (t δ : Nat) (ht : t < T) (hle : f t ≤ g t + δ)
+    (h : ∀ u, u < T → u ≠ t → f u ≤ g u) :
+    ((List.range T).map f).sum ≤ ((List.range T).map g).sum + δ := by
+  induction T with
+  | zero => omega
+  | succ T ih =>
+    simp only [List.range_succ, List.map_append, List.sum_append, List.map_cons, List.map_nil, List.sum_cons, List.sum_nil]
+    by_cases htT : t = T
+    · subst htT
+      have := sum_le_of_pointwise t f g (fun u hu => h u (by omega) (by omega))
+      omega
+    · have := ih (by omega) (fun u hu hne => h u (by omega) hne)
+      have := h T (by omega) (fun hc => htT hc.symm)
+      omega
+
+theorem busy_lt {s : Script} {T M L B : Nat} {c : Cfg} (h : TInv s T M L B c) (t : Nat) (hb : Busy c t) : t < T := by
   rcases Nat.lt_or_ge t T with h1 | h1
   · exact h1
   · have := h.out t h1
@@ -331,10 +386,24 @@ theorem busy_lt {s : Script} {T B : Nat} {c : Cfg} (h : TInv s T B c) (t : Nat) 
     · exact absurd this.1 h2
     · exact absurd this.2 h2
 
-theorem pending_step (s : Script) (T : Nat) {c : Cfg} (hnl : NL c) (t : Nat) (ht : t < T) :
-    (step s t c).R + pending T (step s t c) ≤ c.R + pending T c := by
+/-- the wrapped iterator is called at most until its first `None` -/
+theorem ins_P_le {s : Script} {c : Cfg} (hi : Inv s c) {L : Nat} (hL : FirstNone s L) (t : Nat) (r : Req) (b : Nat) (acc : List Nat)
+    (hpc : (c.th t).pc = .ins r b acc) : c.P ≤ L := by
+  have hnn := hi.callOk t r b acc (Or.inr hpc)
+  rcases Nat.lt_or_ge L c.P with h | h
+  · exact absurd (hnn L h) hL.1
+  · exact h
+
+theorem ins_P_succ (s : Script) (t : Nat) (c : Cfg) (r : Req) (b : Nat) (acc : List Nat)
+    (hpc : (c.th t).pc = .ins r b acc) : (step s t c).P = c.P + 1 := by
+  unfold step; simp only [hpc]
+  cases s c.P <;> simp only <;> repeat' (first | split | simp [setTh])
+
+theorem pending_step (s : Script) (T : Nat) {c : Cfg} (t : Nat) (ht : t < T) :
+    (step s t c).R + pending T (step s t c) ≤ c.R + pending T c +
+      (match (c.th t).pc with | .ins r _ _ => r.len | _ => 0) := by
   have hoth : ∀ u, u ≠ t → pend ((step s t c).th u) = pend (c.th u) := fun u hu => by rw [step_th_other s t u c hu]
-  have hown := step_pend s hnl t
+  have hown := step_pend s (c := c) t
   have key : ∀ (f g : Nat → Nat), (∀ u, u ≠ t → f u = g u) → ∀ T, t < T →
       ((List.range T).map f).sum + g t = ((List.range T).map g).sum + f t := by
     intro f g hfg T
@@ -355,16 +424,36 @@ theorem pending_step (s : Script) (T : Nat) {c : Cfg} (hnl : NL c) (t : Nat) (ht
   omega
 
 /-- the bundle is preserved by every step -/
-theorem tinv_step {s : Script} {T B : Nat} (hB : B < W) {c : Cfg} (h : TInv s T B c) (t : Nat) :
-    TInv s T B (step s t c) := by
+theorem tinv_step {s : Script} {T M L B : Nat} (hL : FirstNone s L) (hB : B < W) {c : Cfg} (h : TInv s T M L B c) (t : Nat) :
+    TInv s T M L B (step s t c) := by
   by_cases hb : Busy c t
   · have ht := busy_lt h t hb
     have hR : c.R < W := by have := h.budget; omega
-    refine ⟨step_inv h.inv hR t, cover_step h.inv h.cover t, deadC_step s h.deadC t, step_nl s h.nl t, ?_, ?_⟩
-    · intro u hu
-      rw [step_th_other s t u c (by omega)]
-      exact h.out u hu
-    · exact Nat.le_trans (pending_step s T h.nl t ht) h.budget
+    have hpend := pending_step s T (c := c) t ht
+    by_cases hins : ∃ r b acc, (c.th t).pc = .ins r b acc
+    · obtain ⟨r, b, acc, hpc⟩ := hins
+      have hPL := ins_P_le h.inv hL t r b acc hpc
+      have hP1 := ins_P_succ s t c r b acc hpc
+      have hlen : r.len ≤ M := (h.ml t).2 r (by simp [hpc, Pc.req])
+      simp only [hpc] at hpend
+      refine ⟨step_inv h.inv hR t, cover_step h.inv h.cover t, deadC_step s h.deadC t, step_ml s M h.ml t, ?_, by omega, ?_⟩
+      · intro u hu; rw [step_th_other s t u c (by omega)]; exact h.out u hu
+      · have hb := h.budget
+        rw [hP1]
+        have h1 : M * (L + 1 - (c.P + 1)) + M = M * (L + 1 - c.P) := by
+          have : L + 1 - c.P = (L + 1 - (c.P + 1)) + 1 := by omega
+          rw [this, Nat.mul_add, Nat.mul_one]
+        omega
+    · have hni : ∀ r b acc, (c.th t).pc ≠ .ins r b acc := fun r b acc hp => hins ⟨r, b, acc, hp⟩
+      have hP := step_P_same s t c hni
+      have hz : (match (c.th t).pc with | .ins r _ _ => r.len | _ => 0) = 0 := by
+        generalize (c.th t).pc = pc at hni
+        cases pc <;> simp
+        exact absurd rfl (hni _ _ _)
+      rw [hz] at hpend
+      refine ⟨step_inv h.inv hR t, cover_step h.inv h.cover t, deadC_step s h.deadC t, step_ml s M h.ml t, ?_, by rw [hP]; exact h.pbound, ?_⟩
+      · intro u hu; rw [step_th_other s t u c (by omega)]; exact h.out u hu
+      · rw [hP]; have := h.budget; omega
   · rw [not_busy_step s t c hb]; exact h
 
 theorem thCost_congr (c c' : Cfg) (u : Nat) (hth : c'.th u = c.th u) (hC : c'.C = c.C) (hY : c'.Y = c.Y) :
@@ -375,20 +464,21 @@ theorem thCost_congr (c c' : Cfg) (u : Nat) (hth : c'.th u = c.th u) (hC : c'.C 
   cases (c.th u).pc <;> simp [pcCost, hC, hY]
 
 /-- the transition system of the protocol as an instance of the generic fairness lemma -/
-def sys (s : Script) (T B : Nat) (hB : B < W) : Orx.Fair.Sys Cfg where
+def sys (s : Script) (T M L B : Nat) (hL : FirstNone s L) (hB : B < W) : Orx.Fair.Sys Cfg where
   step := fun t c => step s t c
-  inv := TInv s T B
+  inv := TInv s T M L B
   busy := Busy
   spin := Spinning
-  mu := mu T
+  mu := mu T (2 * M + 12) L
   T := List.range T
-  inv_step := fun c t h => tinv_step hB h t
+  inv_step := fun c t h => tinv_step hL hB h t
   idle_step := fun c t _ hb => not_busy_step s t c hb
   spin_mu := by
     intro c t h hb hs
-    have ht := busy_lt h t hb
-    obtain ⟨hR, hY, hC, _, hoth, _⟩ := spin_step_harmless s t c hs
+    obtain ⟨hR, hY, hC, hP, hoth, _⟩ := spin_step_harmless s t c hs
     unfold mu
+    rw [hP]
+    congr 1
     apply sum_eq_of_pointwise
     intro u hu
     by_cases hut : u = t
@@ -398,7 +488,23 @@ def sys (s : Script) (T B : Nat) (hB : B < W) : Orx.Fair.Sys Cfg where
     intro c t h hb hs
     have ht := busy_lt h t hb
     unfold mu
-    exact sum_lt_of_one T _ _ t ht (prog_cost_lt h.inv h.nl t hb hs) (fun u _ hut => other_cost_le s t u c hut)
+    by_cases hins : ∃ r b acc, (c.th t).pc = .ins r b acc
+    · obtain ⟨r, b, acc, hpc⟩ := hins
+      have hPL := ins_P_le h.inv hL t r b acc hpc
+      have hP1 := ins_P_succ s t c r b acc hpc
+      have hlen : r.len ≤ M := (h.ml t).2 r (by simp [hpc, Pc.req])
+      have hsum := sum_le_add_one T (thCost (step s t c)) (thCost c) t (2 * r.len + 11) ht
+        (by have := ins_cost_le h.inv t r b acc hpc; omega) (fun u _ hut => other_cost_le s t u c hut)
+      rw [hP1]
+      have h1 : (2 * M + 12) * (L + 1 - (c.P + 1)) + (2 * M + 12) = (2 * M + 12) * (L + 1 - c.P) := by
+        have : L + 1 - c.P = (L + 1 - (c.P + 1)) + 1 := by omega
+        rw [this, Nat.mul_add, Nat.mul_one]
+      omega
+    · have hni : ∀ r b acc, (c.th t).pc ≠ .ins r b acc := fun r b acc hp => hins ⟨r, b, acc, hp⟩
+      have hP := step_P_same s t c hni
+      rw [hP]
+      have := sum_lt_of_one T _ _ t ht (prog_cost_lt h.inv t hb hs hni) (fun u _ hut => other_cost_le s t u c hut)
+      omega
   spin_keeps := by
     intro c t u h hbu hsu hut hbt hst
     obtain ⟨hR, hY, hC, _, hoth, _⟩ := spin_step_harmless s u c hsu
@@ -414,11 +520,11 @@ def sys (s : Script) (T B : Nat) (hB : B < W) : Orx.Fair.Sys Cfg where
     obtain ⟨u, hbu, hsu⟩ := deadlock_free h.inv h.cover h.deadC t hb
     exact ⟨u, List.mem_range.mpr (busy_lt h u hbu), hbu, hsu⟩
 
-theorem tinv_init (s : Script) (T B : Nat) (ps : Nat → List Req) (hok : ∀ t, ∀ r ∈ ps t, ReqOk r)
-    (hnl : ∀ t, ∀ r ∈ ps t, r.isLoop = false) (hout : ∀ t, T ≤ t → ps t = [])
-    (hB : ((List.range T).map fun t => lenSum (ps t)).sum ≤ B) : TInv s T B (init ps) := by
-  refine ⟨inv_init s ps hok, cover_init ps, by intro t b n h; simp [init] at h, ?_, ?_, ?_⟩
-  · intro t; exact ⟨by simpa [init] using hnl t, by simp [init, Pc.req]⟩
+theorem tinv_init (s : Script) (T M L B : Nat) (ps : Nat → List Req) (hok : ∀ t, ∀ r ∈ ps t, ReqOk r)
+    (hml : ∀ t, ∀ r ∈ ps t, r.len ≤ M) (hout : ∀ t, T ≤ t → ps t = [])
+    (hB : ((List.range T).map fun t => lenSum (ps t)).sum + M * (L + 1) ≤ B) : TInv s T M L B (init ps) := by
+  refine ⟨inv_init s ps hok, cover_init ps, by intro t b n h; simp [init] at h, ?_, ?_, by simp [init], ?_⟩
+  · intro t; exact ⟨by simpa [init] using hml t, by simp [init, Pc.req]⟩
   · intro t ht; exact ⟨by simp [init], by simpa [init] using hout t ht⟩
   · have : pending T (init ps) = ((List.range T).map fun t => lenSum (ps t)).sum := by
       unfold pending
@@ -426,20 +532,21 @@ theorem tinv_init (s : Script) (T B : Nat) (ps : Nat → List Req) (hok : ∀ t,
       intro u _; simp [init, pend]
     simp [this, init]; exact hB
 
-/-- **Termination under weak fairness (loop-free programs).** For every wrapped iterator (fused or not, panicking or
-not), every family of per-thread request lists over `T` threads made of single pulls, one-shot chunk pulls, buffered
-pulls (chunk sizes ≥ 1) and `skip_to_end`s, whose total requested count is below `2^64`, and every schedule `σ` that
-schedules each of the `T` threads again and again: after finitely many steps no thread has anything left to do --
-every call has returned. -/
-theorem fair_termination (s : Script) (T B : Nat) (hB : B < W) (ps : Nat → List Req)
-    (hok : ∀ t, ∀ r ∈ ps t, ReqOk r) (hnl : ∀ t, ∀ r ∈ ps t, r.isLoop = false) (hout : ∀ t, T ≤ t → ps t = [])
-    (hbud : ((List.range T).map fun t => lenSum (ps t)).sum ≤ B)
+/-- **Termination under weak fairness.** For every wrapped iterator that eventually returns `None` or panics (call
+`L` is the first that does not return an element; the iterator may be non-fused), every family of per-thread
+request lists over `T` threads — single pulls, one-shot chunk pulls, buffered pulls, `skip_to_end`, and the looping
+adaptors `for_each` / `fold` / `values` with any chunk sizes `1 ≤ n ≤ M` — whose reservations stay below `2^64`
+(`B`), and every schedule `σ` that schedules each of the `T` threads again and again: after finitely many steps no
+thread has anything left to do — every call has returned. -/
+theorem fair_termination (s : Script) (T M L B : Nat) (hL : FirstNone s L) (hB : B < W) (ps : Nat → List Req)
+    (hok : ∀ t, ∀ r ∈ ps t, ReqOk r) (hml : ∀ t, ∀ r ∈ ps t, r.len ≤ M) (hout : ∀ t, T ≤ t → ps t = [])
+    (hbud : ((List.range T).map fun t => lenSum (ps t)).sum + M * (L + 1) ≤ B)
     (σ : Nat → Nat) (hfair : ∀ t, t < T → ∀ k, ∃ d, σ (k + d) = t) :
-    ∃ d, ∀ t, t < T → ¬ Busy (Orx.Fair.seg (sys s T B hB) σ 0 d (init ps)) t := by
-  have h0 := tinv_init s T B ps hok hnl hout hbud
-  have hf : Orx.Fair.WeaklyFair (sys s T B hB) σ := by
+    ∃ d, ∀ t, t < T → ¬ Busy (Orx.Fair.seg (sys s T M L B hL hB) σ 0 d (init ps)) t := by
+  have h0 := tinv_init s T M L B ps hok hml hout hbud
+  have hf : Orx.Fair.WeaklyFair (sys s T M L B hL hB) σ := by
     intro t ht k; exact hfair t (List.mem_range.mp ht) k
-  obtain ⟨d, hd⟩ := Orx.Fair.fair_termination (sys s T B hB) σ hf (mu T (init ps)) 0 (init ps) h0 (Nat.le_refl _)
+  obtain ⟨d, hd⟩ := Orx.Fair.fair_termination (sys s T M L B hL hB) σ hf (mu T (2 * M + 12) L (init ps)) 0 (init ps) h0 (Nat.le_refl _)
   exact ⟨d, fun t ht => hd t (List.mem_range.mpr ht)⟩
 
 end Orx.IW
